@@ -33,13 +33,13 @@ Definition ingest (s : store) (f : file) : store :=
 Definition newer_than_store (s : store) (f : file) : bool :=
   forallb (fun e => forallb (fun e' => ets e' <? ets e) (file_entries (ver s))) (fents f).
 
-(* which steps the theorem covers.  A batch holds each key at most once (the real store panics
-   otherwise: finding F7, repaired by deduplicating); a compaction is admissible and its outputs
-   are the sorted merge of its inputs (that the resulting levels are well formed is then a
-   theorem: Lsm/WfProofs.v). *)
+(* which steps the theorem covers.  Every batch is covered (a key named twice keeps its last
+   write: Model.write transcribes the dedup of KeyValueStore::write, the repair of finding F7); a
+   compaction is admissible and its outputs are the sorted merge of its inputs (that the resulting
+   levels are well formed is then a theorem: Lsm/WfProofs.v). *)
 Definition acceptedb (s : store) (o : op) : bool :=
   match o with
-  | OWrite b => nodup_keysb (map fst b)
+  | OWrite _ => true
   | OFlush _ _ => true
   | OCompact c outs => valid_compactionb (ver s) c && outputs_okb (ver s) c outs
   | OIngest f => match mem s with [] => true | _ => false end && wf_fileb f && newer_than_store s f
@@ -62,18 +62,77 @@ Definition step (s : store) (o : op) : store :=
   | OReopen id sz v' seq' => mkS [] v' seq'
   end.
 
+(* ---- what the call returns.  `step` is total; the Rust is not: it indexes, subtracts and returns
+   Err on conditions the model can see.  step_outcome says, for the same state and step, whether
+   the real call completes (Done, with step's state), panics, or returns an error:
+     - Version::apply_compaction_inner indexes new_tree.levels[compaction.upper_level] (and
+       self.levels[level] for lower <= level < upper): index out of bounds iff upper >= the number
+       of levels; it computes upper_level.ssts.len() - (upper_bound - lower_bound): the inner
+       subtraction overflows iff upper_bound < lower_bound (a panic with overflow checks, as the
+       harness is built; without them a nonsensical capacity).  Model.apply_compaction returns
+       the version unchanged / an ill-formed level there;
+     - KeyValueStore::write hands an EMPTY batch to sst::log's append, which returns
+       Err(empty_batch) - after the sequence number was taken;
+     - LsmTree::_ingest (external ingest AND the flush of a memtable) returns Err(duplicate_sst)
+       when a file with the new file's setsum exists in sst/ - model-visible part: a file of the
+       tree has the id;
+     - a flush with an empty memtable does nothing (rollover happens inside a write that finds
+       the memtable full; the harness does not request a flush of an empty memtable);
+     - reopen: recovery is not modelled, its result is an input (OReopen), so it is Done. ---- *)
+Inductive outcome := Done (s : store) | Panic | Fail.
+
+Definition id_in_tree (v : version) (id : N) : bool := existsb (fun f => fid f =? id) (concat v).
+
+Definition apply_outcome (s : store) (c : compaction) (outs : list file) : outcome :=
+  if negb (cupper c <? length (ver s))%nat then Panic
+  else let u := nth (cupper c) (ver s) [] in
+       if (upper_bound u (clast c) <? lower_bound u (cfirst c))%nat then Panic
+       else Done (compact s c outs).
+
+Definition step_outcome (s : store) (o : op) : outcome :=
+  match o with
+  | OWrite b => match b with [] => Fail | _ => Done (write s b) end
+  | OFlush id sz => match mem s with
+                    | [] => Done s
+                    | _ => if id_in_tree (ver s) id then Fail else Done (flush s id sz)
+                    end
+  | OCompact c outs => apply_outcome s c outs
+  | OIngest f => if id_in_tree (ver s) (fid f) then Fail else Done (ingest s f)
+  | OGc c outs => apply_outcome s c outs
+  | OReopen id sz v' seq' => Done (mkS [] v' seq')
+  end.
+
+(* the caller's side of the two documented errors: a batch is not empty, and a file entering the
+   tree has a new id (an id is the setsum of the content, and the content is new: see
+   ModelConcurrent.fresh_forb) *)
+Definition call_okb (s : store) (o : op) : bool :=
+  match o with
+  | OWrite b => match b with [] => false | _ => true end
+  | OFlush id _ => match mem s with [] => true | _ => negb (id_in_tree (ver s) id) end
+  | OIngest f => negb (id_in_tree (ver s) (fid f))
+  | _ => true
+  end.
+
 Fixpoint run (s : store) (ops : list op) : store :=
   match ops with [] => s | o :: r => run (step s o) r end.
+Fixpoint run_outcome (s : store) (ops : list op) : outcome :=
+  match ops with
+  | [] => Done s
+  | o :: r => match step_outcome s o with Done s' => run_outcome s' r | x => x end
+  end.
+Fixpoint all_calls_ok (s : store) (ops : list op) : bool :=
+  match ops with [] => true | o :: r => call_okb s o && all_calls_ok (step s o) r end.
 Fixpoint all_accepted (s : store) (ops : list op) : bool :=
   match ops with [] => true | o :: r => acceptedb s o && all_accepted (step s o) r end.
 
 Definition init_at (n : N) : store := mkS [] (repeat [] (N.to_nat LSM_NUM_LEVELS)) n.
 Definition init : store := init_at 0.
 
-(* the specification: the value of the last write to k (None: deleted or never written) *)
+(* the specification: the value of the last write to k (None: deleted or never written); inside a
+   batch too the LAST entry naming k counts *)
 Definition spec_step (m : key -> option (list N)) (o : op) : key -> option (list N) :=
   match o with
-  | OWrite b => fun k => match find (fun kv => key_eqb (fst kv) k) b with Some kv => snd kv | None => m k end
+  | OWrite b => fun k => match find (fun kv => key_eqb (fst kv) k) (rev b) with Some kv => snd kv | None => m k end
   | OIngest f => fun k => match find (fun e => key_eqb (ek e) k) (fents f) with Some e => ev e | None => m k end
   | _ => m
   end.
@@ -120,18 +179,59 @@ Proof.
   - rewrite app_nil_r. reflexivity.
 Qed.
 
-Lemma write_kview s b k : nodup_keysb (map fst b) = true ->
+(* the dedup keeps each key once, and what it keeps for k is the LAST entry of the batch naming k *)
+Lemma dedup_last_in (b : list (key * option (list N))) kv : In kv (dedup_last b) -> In kv b.
+Proof.
+  induction b as [|kv0 r IH]; cbn [dedup_last]; [auto|].
+  destruct (existsb _ r); [right; auto|]. intros [<-|H]; [now left|right; auto].
+Qed.
+
+Lemma dedup_last_nodup (b : list (key * option (list N))) : nodup_keysb (map fst (dedup_last b)) = true.
+Proof.
+  induction b as [|kv r IH]; [reflexivity|]. cbn [dedup_last].
+  destruct (existsb (fun kv' => key_eqb (fst kv') (fst kv)) r) eqn:E; [exact IH|].
+  cbn [map nodup_keysb]. rewrite IH, andb_true_r. apply negb_true_iff.
+  destruct (existsb (key_eqb (fst kv)) (map fst (dedup_last r))) eqn:E2; [exfalso|reflexivity].
+  apply existsb_exists in E2. destruct E2 as (k' & Hk' & Ek'). apply in_map_iff in Hk'.
+  destruct Hk' as (kv' & <- & Hkv'). apply dedup_last_in in Hkv'.
+  assert (X : existsb (fun kv'0 => key_eqb (fst kv'0) (fst kv)) r = true).
+  { apply existsb_exists. exists kv'. split; [exact Hkv'|]. now rewrite key_eqb_sym. }
+  congruence.
+Qed.
+
+Lemma find_dedup_last (b : list (key * option (list N))) k :
+  find (fun kv => key_eqb (fst kv) k) (dedup_last b) = find (fun kv => key_eqb (fst kv) k) (rev b).
+Proof.
+  induction b as [|kv r IH]; [reflexivity|]. cbn [dedup_last rev]. rewrite find_app_aux, <- IH. cbn [find].
+  destruct (existsb (fun kv' => key_eqb (fst kv') (fst kv)) r) eqn:E.
+  - destruct (key_eqb (fst kv) k) eqn:Ek; [|now destruct (find _ (dedup_last r))].
+    (* kv names k, and so does a later entry: the later one wins *)
+    apply key_eqb_eq in Ek. rewrite IH.
+    apply existsb_exists in E. destruct E as (kv' & Hkv' & Ekv'). rewrite Ek in Ekv'.
+    destruct (find (fun kv0 => key_eqb (fst kv0) k) (rev r)) eqn:F; [reflexivity|exfalso].
+    pose proof (find_none _ _ F kv' (proj1 (in_rev _ _) Hkv')) as C. cbv beta in C. congruence.
+  - cbn [find]. destruct (key_eqb (fst kv) k) eqn:Ek.
+    + apply key_eqb_eq in Ek.
+      destruct (find (fun kv0 => key_eqb (fst kv0) k) (dedup_last r)) as [kv'|] eqn:F; [exfalso|reflexivity].
+      apply find_some in F. destruct F as [Hin Ek']. apply dedup_last_in in Hin.
+      assert (X : existsb (fun kv'0 => key_eqb (fst kv'0) (fst kv)) r = true).
+      { apply existsb_exists. exists kv'. split; [exact Hin|]. now rewrite Ek. }
+      congruence.
+    + now destruct (find _ (dedup_last r)).
+Qed.
+
+Lemma write_kview s b k :
   kview (write s b) k =
-    match find (fun kv => key_eqb (fst kv) k) b with Some kv => [mkE (fst kv) (seq s + 1) (snd kv)] | None => [] end
+    match find (fun kv => key_eqb (fst kv) k) (rev b) with Some kv => [mkE (fst kv) (seq s + 1) (snd kv)] | None => [] end
     ++ kview s k.
 Proof.
-  intros Hnd. unfold kview, write. cbn [mem ver]. unfold kfilter at 1. rewrite filter_app.
-  fold (kfilter k (rev (map (fun kv => mkE (fst kv) (seq s + 1) (snd kv)) b))). fold (kfilter k (mem s)).
-  rewrite (nodup_keysb_find_unique b k Hnd). now rewrite app_assoc.
+  unfold kview, write. cbn [mem ver]. unfold kfilter at 1. rewrite filter_app.
+  fold (kfilter k (rev (map (fun kv => mkE (fst kv) (seq s + 1) (snd kv)) (dedup_last b)))). fold (kfilter k (mem s)).
+  rewrite (nodup_keysb_find_unique (dedup_last b) k (dedup_last_nodup b)), find_dedup_last. now rewrite app_assoc.
 Qed.
 
 Lemma write_all_entries s b e : In e (all_entries (write s b)) <->
-  (exists kv, In kv b /\ e = mkE (fst kv) (seq s + 1) (snd kv)) \/ In e (all_entries s).
+  (exists kv, In kv (dedup_last b) /\ e = mkE (fst kv) (seq s + 1) (snd kv)) \/ In e (all_entries s).
 Proof.
   unfold all_entries, write. cbn [mem ver]. rewrite !in_app_iff, <- in_rev, in_map_iff.
   split.
@@ -139,12 +239,12 @@ Proof.
   - intros [(kv & Hkv & ->)|[H|H]]; [left; left; eauto|tauto|tauto].
 Qed.
 
-Lemma write_inv s b : Inv s -> nodup_keysb (map fst b) = true -> Inv (write s b).
+Lemma write_inv s b : Inv s -> Inv (write s b).
 Proof.
-  intros I Hnd. constructor.
+  intros I. constructor.
   - exact (inv_wf s I).
-  - intros k. rewrite (write_kview s b k Hnd).
-    destruct (find _ b) as [kv|]; [|exact (inv_ord s I k)].
+  - intros k. rewrite (write_kview s b k).
+    destruct (find _ (rev b)) as [kv|]; [|exact (inv_ord s I k)].
     cbn [app desc_ts]. split; [|exact (inv_ord s I k)].
     intros y Hy. apply in_kview in Hy. destruct Hy as [Hy _]. cbn [ets].
     pose proof (inv_seq s I y Hy). lia.
@@ -179,8 +279,8 @@ Qed.
 Lemma insert_by_snoc m a s x : m a < m x -> insert_by m a (s ++ [x]) = insert_by m a s ++ [x].
 Proof.
   intros Hlt. induction s as [|y r IH]; cbn [app insert_by].
-  - destruct (N.leb_spec (m x) (m a)); [lia|reflexivity].
-  - destruct (m y <=? m a); [now rewrite IH|reflexivity].
+  - destruct (N.ltb_spec (m x) (m a)); [lia|reflexivity].
+  - destruct (m y <? m a); [now rewrite IH|reflexivity].
 Qed.
 
 Lemma isort_by_snoc m l x : (forall y, In y l -> m y < m x) -> isort_by m (l ++ [x]) = isort_by m l ++ [x].
@@ -486,12 +586,12 @@ Proof.
   - intros k. unfold top_value. destruct (G k) as (Hh & _ & _). exact Hh.
 Qed.
 
-Lemma top_value_write s b k : nodup_keysb (map fst b) = true ->
+Lemma top_value_write s b k :
   top_value (write s b) k =
-  match find (fun kv => key_eqb (fst kv) k) b with Some kv => snd kv | None => top_value s k end.
+  match find (fun kv => key_eqb (fst kv) k) (rev b) with Some kv => snd kv | None => top_value s k end.
 Proof.
-  intros Hnd. unfold top_value. rewrite (write_kview s b k Hnd).
-  destruct (find _ b) as [kv|]; reflexivity.
+  unfold top_value. rewrite (write_kview s b k).
+  destruct (find _ (rev b)) as [kv|]; reflexivity.
 Qed.
 
 Lemma run_correct ops : forall s m, Inv s -> ver s <> [] -> (forall k, top_value s k = m k) ->
@@ -502,7 +602,7 @@ Proof.
   apply andb_prop in Hacc. destruct Hacc as [Ha Hacc].
   destruct o as [b|id sz|c outs|f|c outs|id sz v' seq']; cbn [step spec_step] in *.
   - apply IH; [now apply write_inv|exact Hne| |exact Hacc].
-    intros k. rewrite (top_value_write s b k Ha). destruct (find _ b); [reflexivity|apply Hm].
+    intros k. rewrite (top_value_write s b k). destruct (find _ (rev b)); [reflexivity|apply Hm].
   - destruct (flush_inv s id sz I Hne) as [I' Hne'].
     apply IH; [exact I'|exact Hne'| |exact Hacc].
     intros k. unfold top_value. rewrite (flush_kview s id sz k I Hne). apply Hm.
